@@ -350,7 +350,89 @@ def r9(ctx):
     ctx.floor(R, 2)
 
 
+SEG = "turmoil_net::kernel::packet::"
+
+
+def r10(ctx):
+    R = "C06-R10"
+    ctx.rule(R, "every segment that occupies sequence space is answered (RFC 793: an unacceptable segment is acknowledged): in "
+                "handle_established the decision to reply with an ACK must hold for every segment that carries a SYN, a FIN or payload, "
+                "whatever the connection state says about accepting it - with all `send_ack = true` assignments removed, the ACK test is "
+                "reachable only across the syn-false, the fin-false and the payload-empty edge of tests that look at the segment alone. "
+                "Otherwise a retransmission caused by a lost ACK (of data, of the SYN-ACK, of a FIN) is never re-acknowledged and the "
+                "peer retransmits until it aborts")
+    b = ctx.body(R, "turmoil_net::kernel::tcp::handle_established")
+    if not b:
+        return
+    em = [bb for bb, t in b.calls(re.compile(r"^turmoil_net::kernel::tcp::emit$"))]
+    # T: the test of the reply flag - a switch on a bool local with several definitions whose true edge dominates the emit
+    T_, flag = None, None
+    for sbb, t in switch_blocks(b):
+        p = op_place(t["d"])
+        o = origin(b, t["d"])
+        if o["k"] == "place" and o.get("multi") and not o["p"].get("p"):
+            tt, ft = bool_edges(b, sbb, t)
+            if em and all(b.dominated_by_edge(x, (sbb, tt)) for x in em):
+                T_, flag = sbb, o["p"]["l"]
+    if T_ is None:
+        ctx.bad(R, "reply:flag-test", b.span, "handle_established: no `if send_ack { emit(..) }` shape found (the reply decision was restructured: re-derive C06-R10)")
+        return
+    X = [bb for bb, i, s in b.all_stmts() if s["p"]["l"] == flag and not s["p"].get("p") and s["r"]["k"] == "use" and (op_const(s["r"]["o"]) or {}).get("v") == 1]
+    preds = {"syn": lambda at: "field:" + SEG + "TcpFlags::syn" in at,
+             "fin": lambda at: "field:" + SEG + "TcpFlags::fin" in at,
+             "payload": lambda at: "field:" + SEG + "TcpSegment::payload" in at and any(a.endswith("::is_empty") for a in at if a.startswith("call:"))}
+    for name, pr in preds.items():
+        covered = False
+        for sbb, te, fe, o in guards_on(b, lambda o: True):
+            at = Slicer(ctx.w).atoms(b, b.term(sbb)["d"])
+            if not pr(at) or any(a.startswith("field:turmoil_net::kernel::socket::") for a in at):
+                continue
+            # the edge on which the segment does NOT have the feature: syn / fin false, is_empty true
+            neg = te if name == "payload" else fe
+            pol = o
+            for e in neg:
+                r_ = b.reachable(0, removed_blocks=X, removed_edges=[e])
+                if T_ not in r_:
+                    covered = True
+        ctx.inst(R, f"reply:{name}-always-answered", covered, b.term(T_).get("s", b.span),
+                 f"a segment with {name} is acknowledged whether or not it is accepted" if covered else
+                 {"syn": "a retransmitted SYN-ACK (the handshake ACK was lost) is never re-acknowledged: the accepting side stays in SynReceived until its SYN-ACK retransmissions run out - one lost packet loses the connection",
+                  "fin": "a retransmitted FIN (its ACK was lost) is never re-acknowledged: the closing peer retransmits until it aborts with TimedOut",
+                  "payload": "a retransmission of bytes already received (their ACK was lost) is never re-acknowledged: the sender retransmits until it aborts with TimedOut although every byte arrived - one lost ACK aborts an idle connection"}[name])
+    ctx.floor(R, 3)
+
+
+def r11(ctx):
+    R = "C06-R11"
+    ctx.rule(R, "the retransmit budget restarts when the handshake completes: every write Tcb::state := Established (SynSent on SYN-ACK, "
+                "SynReceived on the handshake ACK) is accompanied in the same function, on every path, by retx_attempts := 0 and "
+                "egress_since_ack := 0 - as every other ACK progress is (handle_established). Otherwise the SYN's retransmissions count "
+                "against the first data segment and a round trip well below retx_threshold * (retx_max + 1) aborts the connection")
+    n = 0
+    for b in sorted(ctx.w.bodies.values(), key=lambda b: b.id):
+        if b.crate != "turmoil_net" or "::tests::" in b.id:
+            continue
+        for wb, i, s in b.all_stmts():
+            if place_last_field(s["p"]) != T + "state":
+                continue
+            o = {"k": "agg", "r": s["r"]} if s["r"]["k"] == "agg" else origin(b, s["r"]["o"]) if s["r"]["k"] == "use" else {"k": "?"}
+            if o["k"] != "agg" or o["r"].get("variant") != "Established":
+                continue
+            n += 1
+            res = {}
+            for f in ("retx_attempts", "egress_since_ack"):
+                zs = [x for x, j, s2 in b.all_stmts() if place_last_field(s2["p"]) == T + f and s2["r"]["k"] == "use" and (op_const(s2["r"]["o"]) or {}).get("v") == 0]
+                res[f] = bool(zs) and (b.dominated_by_any(wb, blocks=zs) or not always_passes(b, zs, frm=wb))
+            ok = all(res.values())
+            ctx.inst(R, f"{b.id}:established#{n}", ok, s["s"], "handshake completion resets the retransmit counters" if ok else
+                     f"`{b.id}` enters Established without resetting {[f for f, v in res.items() if not v]}: the handshake's retransmit attempts are "
+                     "charged to the first data segment (5 ms one-way latency: SYN retransmitted 3 times, first write aborted with TimedOut after 2 more)")
+    ctx.floor(R, 2)
+
+
 def run(ctx):
+    r11(ctx)
+    r10(ctx)
     r9(ctx)
     scan_rule(ctx, "C06")
     r1(ctx)
